@@ -29,9 +29,23 @@
      mirrors return these error values without the file id they carry; it is
      the parameter [err_file], and the event asks that it is absent or the
      file of the definition (DerivedUpToLocation).
-   * DuplicateDefinition — produced by ProgramArchive::new, which no mirror
-     covers: the report is a member of [rest]; level and location are part of
-     the event (Assumed; covered by the injection matrix only). *)
+   * DuplicateDefinition — ([failure_event_tied], the event of the theorems of
+     props/C02.v) two definitions of one name (templates and functions share
+     the name space) among the definitions of the files that were read and
+     parse ([all_definitions]: file-id order, then source order), the first of
+     them the first definition of that name, one of the two in a named file;
+     the report is what Merger::add_definitions makes of the second
+     ([merger_items], Derived).  The general [failure_event] (program [pr] and
+     [rest] free) keeps the form "an error-level report of [rest] with a
+     primary label in a named file" for this class; it is used inside the
+     proofs only, instantiated with the Merger reports.
+
+   The TIED project ([FrontStages.tied_project]): the program is not a free
+   variable but [program_of lib (all_definitions defs_of (ps_files s))] — what
+   TemplateLibrary::new keeps of the definitions the parser yields
+   ([defs_of], a parameter like [pragma] / [has_main]) for the files of the
+   FileLibrary that parse — and [rest] is the Merger reports followed by
+   [rest'] (the anonymous-main check, the one stage no mirror covers). *)
 From Coq Require Import ZArith NArith String.
 Require Import Gen.Category Model.Runner Spec.RunnerSpec.
 From stdpp Require Import list.
@@ -51,7 +65,7 @@ Inductive producer :=
 | ByMainMatch         (* Model.FrontStages.main_items *)
 | ByDesugarer         (* Model.Desugar through Model.FrontStages.sugar_items *)
 | ByLifter            (* Model.LiftFull / Model.PipelineMirrors through Model.FrontStages.stage_def *)
-| ByOtherStage.       (* no mirror: ProgramArchive::new *)
+| ByMerger.           (* Model.FrontStages.merger_items: Merger::add_definitions over the files *)
 Definition class_producer (c : failure_class) : producer :=
   match c with
   | MissingFile | UnreadableFile | SyntaxError | UnresolvedInclude => ByIncludes
@@ -59,7 +73,7 @@ Definition class_producer (c : failure_class) : producer :=
   | SeveralMains => ByMainMatch
   | InvalidTupleOrAnonymous => ByDesugarer
   | DuplicateParameter | LiftFailure => ByLifter
-  | DuplicateDefinition => ByOtherStage
+  | DuplicateDefinition => ByMerger
   end.
 
 (* how much of "the report exists, is error level, passes the file filter" is
@@ -67,22 +81,23 @@ Definition class_producer (c : failure_class) : producer :=
 Inductive derivation :=
 | Derived                 (* all of it: the event says nothing about the report but what errors.rs makes of the failure *)
 | DerivedUpToLocation     (* existence, level and code derived; the file id inside the error value is a hypothesis *)
-| Assumed.                (* the event contains the report, its level and its location *)
+| Assumed.                (* the event contains the report, its level and its location (no class any more) *)
 Definition class_derivation (c : failure_class) : derivation :=
   match c with
   | LiftFailure => DerivedUpToLocation
-  | DuplicateDefinition => Assumed
   | _ => Derived
   end.
 
 (* the form in which [failure_event] (below) states the report of a class
-   (Proofs.NoSilentProofs.failure_event_shape).  The class-table check of
+   (Proofs.NoSilentMerger.failure_event_tied_shape).  The class-table check of
    lib/props/C02.py reads [class_table] through the extracted driver
    (`model_front classes`) and looks for a report of that form in the ground
    truth of every injection it checks. *)
 Inductive report_shape :=
 | ShOsError | ShParseError | ShIncludeError
-| ShVersionError | ShMultipleMain | ShSugarError | ShParamCollision | ShLiftError | ShOtherInNamedFile.
+| ShVersionError | ShMultipleMain | ShSugarError | ShParamCollision | ShLiftError
+| ShDuplicate             (* item_report (SIDuplicate d first): SameSymbolDeclaredTwice, primary files [file of d; file of first] *)
+| ShOtherInNamedFile.     (* the general [failure_event] only: a report of [rest] *)
 Definition class_shape (c : failure_class) : report_shape :=
   match c with
   | MissingFile | UnreadableFile => ShOsError
@@ -93,7 +108,7 @@ Definition class_shape (c : failure_class) : report_shape :=
   | InvalidTupleOrAnonymous => ShSugarError
   | DuplicateParameter => ShParamCollision
   | LiftFailure => ShLiftError
-  | DuplicateDefinition => ShOtherInNamedFile
+  | DuplicateDefinition => ShDuplicate
   end.
 Definition all_classes : list failure_class :=
   [ MissingFile; UnreadableFile; SyntaxError; UnresolvedInclude; DuplicateParameter; LiftFailure;
@@ -253,4 +268,42 @@ Section NoSilentSpec.
       (forall n body fid, In (n, body) the_functions -> body_in_file fid body -> file_is_named (Z.of_N fid) ->
                           In n (map fst (Desugar.d_functions sd))).
   End Event.
+
+  (* ---- the events stated on the files that were read ---- *)
+  Section Tied.
+    Variable argv libs : list path.
+    Variable s : parse_state (path:=path).
+    (* what the parser yields for the files that parse: the line tables and, per file, its definitions in
+       source order; [sd] is what the desugarer answers for the library made of them *)
+    Variable lib : list (list N).
+    Variable defs_of : path -> list PM.definition.
+    Variable sd : Desugar.desugared.
+    (* the reports of the stage no mirror covers (the anonymous-main check) *)
+    Variable rest' : list Runner.report.
+
+    Definition tied_all : list PM.definition := all_definitions content defs_of (ps_files s).
+    Definition tied_program : PM.program := program_of lib tied_all.
+    Definition tied_rest : list Runner.report := map item_report (merger_items tied_all) ++ rest'.
+
+    Definition failure_event_tied (c : failure_class) (r : Runner.report) : Prop :=
+      match c with
+      | DuplicateDefinition =>
+          exists l1 d1 l2 d2 l3,
+            tied_all = l1 ++ d1 :: l2 ++ d2 :: l3 /\
+            PM.d_name d1 = PM.d_name d2 /\
+            (forall x, In x l1 -> PM.d_name x <> PM.d_name d1) /\
+            (def_in_named_file argv s d1 \/ def_in_named_file argv s d2) /\
+            r = item_report (SIDuplicate d2 d1)
+      | _ => failure_event argv libs s tied_program sd tied_rest c r
+      end.
+
+    (* the parser's `Parameters::from(.., file_id, ..)`: the definitions of the i-th file carry the file id i *)
+    Definition defs_file_ok : Prop :=
+      forall i f u, ps_files s !! i = Some (f, u) -> parses f = true ->
+        forall d, In d (defs_of f) -> PM.d_pfile d = Some (N.of_nat i).
+
+    (* the parser's `FillMeta::fill(file_id, ..)`: every meta of a body lies in the file of the definition *)
+    Definition bodies_in_file : Prop :=
+      forall d fid, In d tied_all -> PM.d_pfile d = Some fid -> body_in_file fid (PM.d_body d).
+  End Tied.
 End NoSilentSpec.
